@@ -477,6 +477,34 @@ func (c *Ctx) ruleStrEncap() {
 			if !ok {
 				continue
 			}
+			if hc, isCall := v.(*ssa.Call); isCall && len(hc.Call.Args) == 3 {
+				if cal := c.p.callee(&hc.Call); cal != nil && c.p.inPkg(cal) && len(cal.Params) == 3 {
+					// a wrapping helper: must be l+v+r on every path, nothing else
+					pure := c.returnsOnlyFrom(cal, func(rv ssa.Value) bool {
+						rb, ok := c.isStringAdd(rv)
+						if !ok {
+							return false
+						}
+						lv := c.concatLeaves(rb)
+						return len(lv) == 3 && lv[0] == ssa.Value(cal.Params[0]) && lv[1] == ssa.Value(cal.Params[1]) && lv[2] == ssa.Value(cal.Params[2])
+					})
+					hasConst := false
+					for _, b2 := range cal.Blocks {
+						for _, i2 := range b2.Instrs {
+							if ret, isR := i2.(*ssa.Return); isR {
+								if _, isC := ret.Results[0].(*ssa.Const); isC {
+									hasConst = true
+								}
+							}
+						}
+					}
+					if !pure || hasConst {
+						problems = append(problems, "a wrap goes through "+relName(cal)+", which does not return left + v + right on every path (a value that already carries the pair would stay unwrapped)")
+					}
+					nWrap++
+					continue
+				}
+			}
 			bo, ok := c.isStringAdd(v)
 			if !ok {
 				continue
@@ -607,6 +635,7 @@ func (c *Ctx) ruleStr() {
 	c.ruleStrVerbatimSettings()
 	c.ruleStrOperatorPad()
 	c.ruleStrFloatWidth()
+	c.ruleStrNoBypass()
 }
 
 // ruleStrCondValid: the unguarded Condition renderer condition.string is
@@ -936,5 +965,119 @@ func (c *Ctx) ruleStrVerbatimSettings() {
 	} else {
 		sort.Strings(problems)
 		rep.bad("R-STR", "stack.typ", "VERBATIM: symbol as operator", c.p.pos(fn.Pos()), strings.Join(uniq(problems), "; "))
+	}
+}
+
+// returnsOnlyFrom: every value fn returns is (through phis) one of the allowed
+// values or an empty-string constant.
+func (c *Ctx) returnsOnlyFrom(fn *ssa.Function, allowed func(ssa.Value) bool) bool {
+	seen := map[ssa.Value]bool{}
+	var ok func(v ssa.Value) bool
+	ok = func(v ssa.Value) bool {
+		if seen[v] {
+			return true
+		}
+		seen[v] = true
+		if allowed(v) {
+			return true
+		}
+		switch x := v.(type) {
+		case *ssa.Phi:
+			for _, e := range x.Edges {
+				if !ok(e) {
+					return false
+				}
+			}
+			return true
+		case *ssa.Const:
+			return x.Value != nil && x.Value.Kind() == constant.String && constant.StringVal(x.Value) == ""
+		case *ssa.UnOp:
+			// a spilled named result
+			if al, isA := x.X.(*ssa.Alloc); isA && x.Op == token.MUL {
+				n := 0
+				for _, r := range *al.Referrers() {
+					if st, isS := r.(*ssa.Store); isS && st.Addr == ssa.Value(al) {
+						n++
+						if !ok(st.Val) {
+							return false
+						}
+					}
+				}
+				return n > 0
+			}
+		}
+		return false
+	}
+	n := 0
+	for _, b := range fn.Blocks {
+		for _, in := range b.Instrs {
+			if ret, isR := in.(*ssa.Return); isR && len(ret.Results) == 1 {
+				n++
+				if !ok(ret.Results[0]) {
+					return false
+				}
+			}
+		}
+	}
+	return n > 0
+}
+
+// ruleStrNoBypass: no rendering escapes the two normalising steps.  encapv
+// returns encapValue's result or nothing (a leaf that "already looks
+// encapsulated" is wrapped all the same); assembleStringStack returns
+// condenseWHSP(paren(...)) on every path (no fast path around the
+// condensation of blank runs inside leaf texts).
+func (c *Ctx) ruleStrNoBypass() {
+	rep := c.rep
+	if fn := c.anchor("R-STR", "stack.encapv"); fn != nil {
+		calls := c.findCalls(fn, "encapValue")
+		good := len(calls) == 1 && c.returnsOnlyFrom(fn, func(v ssa.Value) bool { return len(calls) == 1 && v == ssa.Value(calls[0]) })
+		if good {
+			rep.ok("R-STR", "stack.encapv", "NOBYPASS: encapsulation", c.p.pos(fn.Pos()), "every result is encapValue's (or the empty string for BASIC)")
+		} else {
+			rep.bad("R-STR", "stack.encapv", "NOBYPASS: encapsulation", c.p.pos(fn.Pos()), "a leaf text can be returned without having gone through encapValue (e.g. because it already begins and ends with the pair)")
+		}
+	}
+	if fn := c.anchor("R-STR", "stack.assembleStringStack"); fn != nil {
+		good := c.returnsOnlyFrom(fn, func(v ssa.Value) bool {
+			call, ok := v.(*ssa.Call)
+			if !ok || c.calleeName(&call.Call) != "condenseWHSP" || len(call.Call.Args) != 1 {
+				return false
+			}
+			inner, ok := call.Call.Args[0].(*ssa.Call)
+			return ok && (c.calleeName(&inner.Call) == "stack.paren" || c.calleeName(&inner.Call) == "(*stack).paren")
+		})
+		// the empty-string escape of returnsOnlyFrom is not wanted here: require at least the call
+		if good {
+			rep.ok("R-STR", "stack.assembleStringStack", "NOBYPASS: condensation", c.p.pos(fn.Pos()), "every result is condenseWHSP(paren(...))")
+		} else {
+			rep.bad("R-STR", "stack.assembleStringStack", "NOBYPASS: condensation", c.p.pos(fn.Pos()), "a rendering can be returned without the condensation of blank runs (blanks and tabs inside leaf texts would survive)")
+		}
+	}
+	// integer leaves keep their signedness: nothing in the primitive stringers converts an
+	// unsigned integer to a signed one (a uint64 above MaxInt64 would print negative)
+	if root := c.anchor("R-STR", "primitiveStringer"); root != nil {
+		var bad []string
+		for _, fn := range c.reach(root) {
+			for _, b := range fn.Blocks {
+				for _, in := range b.Instrs {
+					cv, ok := in.(*ssa.Convert)
+					if !ok {
+						continue
+					}
+					from, ok1 := cv.X.Type().Underlying().(*types.Basic)
+					to, ok2 := cv.Type().Underlying().(*types.Basic)
+					if ok1 && ok2 && from.Info()&types.IsUnsigned != 0 && to.Info()&types.IsInteger != 0 && to.Info()&types.IsUnsigned == 0 {
+						bad = append(bad, relName(fn)+" "+c.p.instrPos(in))
+					}
+				}
+			}
+		}
+		sort.Strings(bad)
+		if len(bad) == 0 {
+			rep.ok("R-STR", "primitiveStringer", "NUMBER: signedness", c.p.pos(root.Pos()), "no unsigned integer is converted to a signed one on its way to the text")
+		} else {
+			rep.bad("R-STR", "primitiveStringer", "NUMBER: signedness", c.p.pos(root.Pos()), "an unsigned integer is converted to a signed type before formatting (values above the signed maximum print negative): "+strings.Join(bad, "; "))
+		}
 	}
 }
